@@ -229,13 +229,14 @@ def run_table(case):
 
 
 E2E_SDL = """
-type Query { item(id: ID!): Item items: [Item!]! }
+type Query { item(id: ID!, a: ID, b: ID, c: ID): Item items: [Item!]! }
 type Item { id: ID! name: String tags: [String!]! }
 """
 E2E_QUERIES = """
 query GetItem($id: ID!) { item(id: $id) { id name tags } }
 query ListItems { items { id name } }
-"""
+query WithLocals($response: ID!, $data: ID, $query: ID, $variables: ID) { item(id: $response, a: $data, b: $query, c: $variables) { id name tags } }
+"""  # WithLocals: its variables carry the names of the method's own locals (the generator renames its locals then)
 
 
 def run_e2e(case, scratch):
@@ -250,12 +251,13 @@ def run_e2e(case, scratch):
         return {"harness_error": "fixed C12 project does not generate: " + gen["msg"]}
     pkg = e2e.import_package(pcase, scratch)
     ex = __import__(pkg.__name__ + ".exceptions", fromlist=["x"])
-    good = {"GetItem": {"item": {"id": "1", "name": None, "tags": ["a"]}}, "ListItems": {"items": [{"id": "2", "name": "n"}]}}
+    good = {"GetItem": {"item": {"id": "1", "name": None, "tags": ["a"]}}, "ListItems": {"items": [{"id": "2", "name": "n"}]},
+            "WithLocals": {"item": {"id": "3", "name": "w", "tags": []}}}
     failures, nts, units = [], [], 0
     state = {}
     transport = e2e.Transport(lambda body, req: (state["status"], state["content"]))
     client = e2e.make_client(pkg, pcase, transport)
-    for op, kwargs in (("GetItem", {"id": "1"}), ("ListItems", {})):
+    for op, kwargs in (("GetItem", {"id": "1"}), ("ListItems", {}), ("WithLocals", {"response": "3", "data": "d"})):
         method = e2e.method_for(client, op)
         bodies = [(lbl, c) for lbl, c in body_table() if not lbl.startswith("data")]
         for i, e in enumerate([None, []] + ERRS):
